@@ -523,6 +523,16 @@ def report(chk, R, verdicts):
                 obs["gaponly_fixed_point_runs"] += 1
                 obs["gaponly_fixed_point_left"] += int(not v["ok"])
                 obs["rho_kept" if v["ok"] else "rho_left"].append(round(k.get("roothaan_radius", float("nan")), 3))
+                if not v["ok"]:
+                    # the property says unconditionally "leaves a converged Hartree-Fock solution unchanged": a TLC-certified
+                    # fixed point that the 30 undamped iterations leave IS a violation; it gets its own site key (the
+                    # failing input class: Roothaan map not contractive at the solution) so that it can be a known finding
+                    # while a converged solution lost on a contractive problem is still reported
+                    chk.violation(f"{k['kind']}.optimize:converged-solution-not-kept:roothaan-not-contractive",
+                                  f"{k['what']}: started exactly at the converged solution, the output has a different occupied "
+                                  f"space / energy after the fixed 30 undamped iterations (numerical spectral radius of the "
+                                  f"Roothaan map at the solution {k.get('roothaan_radius', float('nan')):.3g} > 1: round-off is amplified)",
+                                  {kk: vv for kk, vv in k.items() if kk != "raw"} | {"verdict": v})
             elif k["rtype"] == "eigh-cluster-obs":
                 obs["tied_cluster_runs"] += 1
                 obs["tied_cluster_agree"] += int(v["ok"])
